@@ -121,7 +121,9 @@ def leafHash (d : Bytes) : Hash := Sha256.sha256 (0 :: d)
 
 structure St where
   base : KV := []
-  last : KV := []
+  height : Nat := 0                    -- committed height (genesis = 0)
+  time : Nat := 0                      -- committed block time, relative to the genesis timestamp
+  last : Option (KV × Nat) := none     -- write set and time of the last executed block, if any
 
 def parseSigners (s : String) : Option (List Addr) :=
   if s = "-" then some [] else (s.splitOn ",").mapM addrNamed
@@ -157,13 +159,17 @@ def showResult (res : BlockResult) : String :=
 
 def step (s : St) (toks : List String) : St × String :=
   match toks with
-  | "blk" :: h :: t :: rest =>
-    match parseTxs rest with
+  | "blk" :: dt :: rest =>
+    match parseTxs rest, dt.toNat? with
+    | some txs, some d =>
+      let t := s.time + 1 + d
+      let res := execBlock leafHash registry { base := s.base, height := s.height + 1, time := t } txs
+      ({ s with last := some (res.writeSet, t) }, showResult res)
+    | _, _ => (s, "bad-op")
+  | ["commit"] =>
+    match s.last with
+    | some (ws, t) => ({ base := ws.persistInto s.base, height := s.height + 1, time := t, last := none }, "ok")
     | none => (s, "bad-op")
-    | some txs =>
-      let res := execBlock leafHash registry { base := s.base, height := Proto.natOf h, time := Proto.natOf t } txs
-      ({ s with last := res.writeSet }, showResult res)
-  | ["commit"] => ({ base := s.last.persistInto s.base, last := [] }, "ok")
   | _ => (s, "bad-op")
 
 end AtomicDrv
